@@ -9,4 +9,4 @@ for id in "$@"; do
   echo "== $id on $(basename $(dirname $P))/$(basename $P): rc=$? $(echo "$out" | grep -c '^VIOLATION') VIOLATION lines"
   echo "$out" | grep "violations with\|SUMMARY\|INCONCL" | cut -c1-260
 done
-rm -rf "$S" /verif/.build/harness-alt-*
+rm -rf "$S"
